@@ -384,20 +384,37 @@ class Translator:
 
     # ---- ops:  ("f", name, typetoks) | ("fe", name, typetoks) | ("if", var, [(condtoks, ops)], elseops) | ("opt", ops)
     #            | ("loopv", var, ops) | ("loopf", n, ops) | ("loope", ops)
-    def ops_to_tokens(self, ops):
+    def count_renames(self, ops, ren):
+        """the count variable of a counted array is named after the array (`len:<array>`), as the writer and the specification side do"""
+        for o in ops:
+            if o[0] == "f" and len(o[2]) > 1 and o[2][0] == "arrv" and o[2][1].startswith("@var:"):
+                ren.setdefault(o[2][1][5:], "len:" + o[1])
+            elif o[0] == "if":
+                for _, b in o[2]:
+                    self.count_renames(b, ren)
+                self.count_renames(o[3], ren)
+            elif o[0] == "opt":
+                self.count_renames(o[1], ren)
+        return ren
+
+    def ops_to_tokens(self, ops, ren=None):
+        if ren is None:
+            ren = self.count_renames(ops, {})
         out = []
+        nm = lambda n: str(vid(ren.get(n, n)))
+        fix = lambda toks: [nm(t[5:]) if t.startswith("@var:") else t for t in toks]
         for o in ops:
             if o[0] == "f":
-                out += ["f", str(vid(o[1])), "p"] + o[2]
+                out += ["f", nm(o[1]), "p"] + fix(o[2])
             elif o[0] == "fe":
-                out += ["fe", str(vid(o[1]))] + o[2]
+                out += ["fe", nm(o[1])] + fix(o[2])
             elif o[0] == "if":
-                out += ["if", str(vid(o[1])), str(len(o[2]))]
+                out += ["if", nm(o[1]), str(len(o[2]))]
                 for c, b in o[2]:
-                    out += c + self.ops_to_tokens(b) + ["end"]
-                out += self.ops_to_tokens(o[3]) + ["end"]
+                    out += c + self.ops_to_tokens(b, ren) + ["end"]
+                out += self.ops_to_tokens(o[3], ren) + ["end"]
             elif o[0] == "opt":
-                out += ["opt"] + self.ops_to_tokens(o[1]) + ["end"]
+                out += ["opt"] + self.ops_to_tokens(o[1], ren) + ["end"]
             else:
                 raise Untranslated(f"loop outside an array context: {o[0]}")
         return out
@@ -708,7 +725,7 @@ class Translator:
                 m = re.fullmatch(r"0 \.\. (\w+)", it)
                 m2 = re.fullmatch(r"(\w+) \. iter_mut \( \)", it)
                 if m:
-                    ops.append(("f", "_arr", ["arrv", str(vid(m.group(1)))] + self.elem_type(inner, it)))
+                    ops.append(("f", "_arr", ["arrv", "@var:" + m.group(1)] + self.elem_type(inner, it)))
                 elif m2 and m2.group(1) in st["fixed"]:
                     ops.append(("f", m2.group(1), ["arrf", str(st["fixed"][m2.group(1)])] + self.elem_type(inner, it)))
                 else:
@@ -793,3 +810,553 @@ if __name__ == "__main__":
         print(v, k)
     for b in bad[:int(sys.argv[1]) if len(sys.argv) > 1 else 0]:
         print(b["file"], b["untranslated"][:200])
+
+
+# ================================================================================================ writers
+# `write_into_vec` of every generated message / struct -> the closed syntax (with roles: constants and self.size fields as the writer
+# emits them).  A write statement names the value it writes (`self.x`, a destructured variant field, `if_statement.x`, the loop variable);
+# its wire form follows from the Rust type of that value (struct / variant field declarations) and the conversion applied.
+
+def parse_decls(src):
+    """type declarations of a generated file: name -> ("struct", {field: type}) | ("enum", [(variant, {field: type})])"""
+    out = {}
+    for m in re.finditer(r"(?m)^pub(?:\(crate\))? struct (\w+) \{\n(.*?)\n\}", src, re.S):
+        fields = {}
+        for fm in re.finditer(r"(?m)^\s+(?:pub )?((?:r#)?\w+): ([^\n]+?),$", m.group(2)):
+            fields[fm.group(1).replace("r#", "")] = fm.group(2)
+        out[m.group(1)] = ("struct", fields)
+    for m in re.finditer(r"(?m)^pub(?:\(crate\))? struct (\w+);", src):
+        out[m.group(1)] = ("struct", {})
+    for m in re.finditer(r"(?m)^pub(?:\(crate\))? enum (\w+) \{\n(.*?)\n\}", src, re.S):
+        variants, cur = [], None
+        for line in m.group(2).split("\n"):
+            t = line.strip()
+            if not t or t.startswith("///") or t.startswith("#["):
+                continue
+            mv = re.fullmatch(r"(\w+),", t)
+            mo = re.fullmatch(r"(\w+) \{", t)
+            mf = re.fullmatch(r"((?:r#)?\w+): (.+?),", t)
+            if mv and cur is None:
+                variants.append((mv.group(1), {}))
+            elif mo:
+                cur = (mo.group(1), {})
+            elif mf and cur is not None:
+                cur[1][mf.group(1).replace("r#", "")] = mf.group(2)
+            elif t == "}," and cur is not None:
+                variants.append(cur)
+                cur = None
+        out[m.group(1)] = ("enum", variants)
+    return out
+
+
+def as_int_table(src, tname):
+    """variant -> value of `impl tname { fn as_int }` (patterns `Self::A => 1,` or `Self::A { .. } => 1,`)"""
+    m = None
+    for im in re.finditer(r"(?m)^impl " + re.escape(tname) + r" \{\n", src):
+        end = src.find("\n}\n", im.end())
+        m = re.search(r"(?:pub(?:\(crate\))? )?const fn as_int\(&self\) -> (\w+) \{\s*match self \{(.*?)\n\s*\}\s*\}", src[im.start():end], re.S)
+        if m:
+            break
+    if not m:
+        return None
+    vals = []
+    for line in m.group(2).strip().split("\n"):
+        mm = re.fullmatch(r"\s*Self::(\w+)(?: \{ \.\. \})? => (-?(?:0x[0-9a-fA-F_]+|\d+)),", line)
+        if not mm:
+            return None
+        vals.append((mm.group(1), int(mm.group(2).replace("_", ""), 0)))
+    return m.group(1), vals
+
+
+class WriterTranslator:
+    def __init__(self, reader=None):
+        self.rd = reader or Translator()
+        self.ix = self.rd.ix
+        self.memo = {}
+        self.decls_cache = {}
+
+    def decls(self, path):
+        if path not in self.decls_cache:
+            self.decls_cache[path] = parse_decls(self.ix.src(path))
+        return self.decls_cache[path]
+
+    def type_home(self, ctx, tname, here):
+        """file that declares type `tname` (the current file first)"""
+        if tname in self.decls(here):
+            return here
+        p = self.ix.defs.get((ctx, tname))
+        if p is None:
+            raise Untranslated(f"type {tname} not found for {ctx}")
+        return p
+
+    def container(self, ctx, path, tname):
+        key = (ctx, path, tname)
+        if key in self.memo:
+            if self.memo[key] is None:
+                raise Untranslated(f"recursive struct {tname}")
+            if isinstance(self.memo[key], Untranslated):
+                raise Untranslated(f"struct {tname}: {self.memo[key]}")
+            return self.memo[key]
+        self.memo[key] = None
+        try:
+            src = self.ix.src(path)
+            body = None
+            for m in re.finditer(r"\nimpl (?:crate::Message for )?" + re.escape(tname) + r" \{\n", src):
+                end = src.find("\n}\n", m.end())
+                body = self.rd.fn_body(src[m.start():end + 3], ["write_into_vec"])
+                if body:
+                    break
+            if body is None:
+                raise Untranslated(f"{tname}: no write_into_vec")
+            stmts = P(lex(body)).block()
+            st = {"ctx": ctx, "path": path, "self": tname, "vars": {"self": tname}, "lens": {}, "src": src}
+            ops = self.block(stmts, st)
+            self.memo[key] = ops
+        except Untranslated as ex:
+            self.memo[key] = ex
+            raise
+        return self.memo[key]
+
+    # ---- typing
+    def strip_ty(self, t):
+        t = t.strip()
+        while True:
+            m = re.fullmatch(r"&(?:'\w+ )?(.*)", t) or re.fullmatch(r"Option<(.*)>", t) or re.fullmatch(r"Box<(.*)>", t)
+            if not m:
+                return t
+            t = m.group(1).strip()
+
+    def field_type(self, tname, field, st):
+        home = self.type_home(st["ctx"], tname, st["path"])
+        d = self.decls(home).get(tname)
+        if d is None:
+            raise Untranslated(f"no declaration of {tname}")
+        if d[0] == "struct":
+            if field not in d[1]:
+                raise Untranslated(f"{tname} has no field {field}")
+            return d[1][field]
+        raise Untranslated(f"field {field} of enum {tname} accessed by path")
+
+    def path_type(self, toks, st):
+        """type of `a . b . c` (tokens) ; a is a bound variable"""
+        parts = [t for t in toks if t != "."]
+        if parts and parts[0] == "*":
+            parts = parts[1:]
+        if not parts or parts[0] not in st["vars"]:
+            raise Untranslated(f"unbound value {' '.join(toks)}")
+        t = st["vars"][parts[0]]
+        for f in parts[1:]:
+            t = self.field_type(self.strip_ty(t), f.replace("r#", ""), st)
+        return t.strip()
+
+    def name_of(self, toks):
+        parts = [t for t in toks if t not in (".", "*", "&")]
+        n = parts[-1].replace("r#", "")
+        return None if n in ("self", "i", "v", "if_statement") else n
+
+    INTS = {"u8": 1, "u16": 2, "u32": 4, "u64": 8, "i8": 1, "i16": 2, "i32": 4, "i64": 8, "f32": 4}
+
+    def enum_or_flag(self, tname, k, e, st):
+        """wire type of a value of definer type `tname` written at width k"""
+        ctx = st["ctx"]
+        home = self.type_home(ctx, tname, st["path"])
+        src = self.ix.src(home)
+        if re.search(r"pub struct " + re.escape(tname) + r" \{\s*inner: \w+,", src):
+            return ["int", str(k), e]                      # flag type or synthesised flag struct: raw bits
+        tab = as_int_table(src, tname)
+        if tab is None:
+            raise Untranslated(f"{tname}: no as_int table")
+        vs = [v + (1 << (8 * k)) if v < 0 else v for _, v in tab[1]]
+        return ["enum", str(k), e, str(len(vs))] + [str(v) for v in vs]
+
+    def as_int_width(self, tname, st):
+        home = self.type_home(st["ctx"], tname, st["path"])
+        src = self.ix.src(home)
+        for im in re.finditer(r"(?m)^impl " + re.escape(tname) + r" \{\n", src):
+            end = src.find("\n}\n", im.end())
+            m = re.search(r"const fn as_int\(&self\) -> (\w+)", src[im.start():end])
+            if m:
+                return m.group(1)
+        raise Untranslated(f"{tname}: no as_int")
+
+    # ---- statements
+    def block(self, stmts, st):
+        prim = []          # primitive ops before the string peephole
+        for s in stmts:
+            k = s[0]
+            if k == "expr":
+                e = s[1]
+                if e[0] == "flat":
+                    prim += self.flat(e[1], st)
+                elif e[0] == "if":
+                    prim += self.if_(e, st)
+                elif e[0] == "match":
+                    prim += self.match_(e, st)
+                else:
+                    raise Untranslated("block statement")
+            elif k == "for":
+                prim += self.for_(s, st)
+            elif k == "let":
+                raise Untranslated("let in a writer: " + " ".join(s[1]))
+            else:
+                raise Untranslated(f"statement kind {k}")
+        return self.peephole(prim)
+
+    def peephole(self, prim):
+        out, i = [], 0
+        while i < len(prim):
+            o = prim[i]
+            if o[0] == "lenp1" and i + 2 < len(prim) and prim[i + 1] == ("bytes", o[1]) and prim[i + 2] == ("zero",):
+                out.append(("f", o[1], ["p"], ["sizedcstring"]))
+                i += 3
+            elif o[0] == "len" and o[2] == 1 and i + 1 < len(prim) and prim[i + 1] == ("bytes", o[1]):
+                out.append(("f", o[1], ["p"], ["string"]))
+                i += 2
+            elif o[0] == "bytes" and i + 1 < len(prim) and prim[i + 1] == ("zero",):
+                out.append(("f", o[1], ["p"], ["cstring"]))
+                i += 2
+            elif o[0] == "len":
+                out.append(("f", "len:" + o[1], ["p"], ["int", str(o[2]), "le"]))
+                i += 1
+            elif o[0] in ("f", "fe", "if", "opt", "arr", "ifenum", "lo48", "hi48"):
+                out.append(o)
+                i += 1
+            else:
+                raise Untranslated(f"dangling string piece {o}")
+        return out
+
+    def flat(self, toks, st):
+        text = " ".join(toks)
+        if text in ("Ok ( ( ) )",) or text.startswith("assert_ne!"):
+            return []
+        m = re.fullmatch(r"w \. write_all \( (.*) \) \?", text)
+        if m:
+            return self.write_all(m.group(1), st)
+        m = re.fullmatch(r"((?:\w+ \. )*\w+) \. write_into_vec \( & mut w \) \?", text)
+        if m:
+            p = m.group(1).split(" ")
+            t = self.strip_ty(self.path_type(p, st))
+            return [("f", self.name_of(p), ["p"], self.struct_or_prim(t, st))]
+        m = re.fullmatch(r"crate :: util :: write_packed_guid \( &? ?((?:\w+ \. )*\w+) , & mut w \) \?", text)
+        if m:
+            return [("f", self.name_of(m.group(1).split(" ")), ["p"], ["packedguid"])]
+        m = re.fullmatch(r"crate :: util :: (\w+)_write_into_vec \( &? ?((?:\w+ \. )*\w+) , & mut w \) \?", text)
+        if m:
+            return [("f", self.name_of(m.group(2).split(" ")), ["p"], self.util_struct(m.group(1), st))]
+        m = re.fullmatch(r"crate :: util :: write_monster_move_spline \( ((?:\w+ \. )*\w+) \. as_slice \( \) , & mut w \) \?", text)
+        if m:
+            return [("f", self.name_of(m.group(1).split(" ")), ["p"], ["prim", "MonsterMoveSplines"])]
+        m = re.fullmatch(r"crate :: util :: write_addon_array \( ((?:\w+ \. )*\w+) \. as_slice \( \) , & mut w \) \?", text)
+        if m:
+            ctx = st["ctx"]
+            return [("f", self.name_of(m.group(1).split(" ")), ["p"], ["prim", "AddonArray_" + "_".join(map(str, EXPS[ctx]))])]
+        m = re.fullmatch(r"crate :: util :: write_achievement_(done|in_progress) \( ((?:\w+ \. )*\w+)(?: \. as_slice \( \))? , & mut w \) \?", text)
+        if m:
+            return [("f", self.name_of(m.group(2).split(" ")), ["p"], ["prim", "AchievementDoneArray" if m.group(1) == "done" else "AchievementInProgressArray"])]
+        raise Untranslated(f"unrecognised writer statement: {text}")
+
+    def struct_or_prim(self, t, st):
+        ctx = st["ctx"]
+        if t in PRIM_READS:
+            return ["prim", t + ("_" + (ctx[5:] if ctx.startswith("login") else "_".join(map(str, EXPS[ctx]))) if t in PRIM_VERSIONED else "")]
+        home = self.type_home(ctx, t, st["path"])
+        return ["struct"] + self.ops_to_tokens(self.container(ctx, home, t)) + ["end"]
+
+    def util_struct(self, fn, st):
+        key = (st["ctx"], "util::" + fn)
+        if key not in self.memo:
+            path = os.path.join(REPO, "wow_world_messages/src/util/functions/shared.rs")
+            src = self.ix.src(path)
+            m = re.search(r"\npub\(crate\) fn " + fn + r"_write_into_vec\(s: &([\w:]+), mut w: impl std::io::Write\) -> Result<\(\), std::io::Error> \{\n", src)
+            if not m:
+                raise Untranslated(f"util writer {fn}_write_into_vec not found")
+            end = src.find("\n}\n", m.end())
+            body = src[m.end() - 2:end + 2]
+            ret = m.group(1).split("::")
+            tname = ret[-1]
+            tctx = ret[1] if ret[1] in EXPS else st["ctx"]
+            tpath = self.ix.lookup(tctx, tname)
+            st2 = {"ctx": st["ctx"], "path": tpath, "self": tname, "vars": {"s": tname}, "lens": {}, "src": src}
+            self.memo[key] = ["struct"] + self.ops_to_tokens(self.block(P(lex(body)).block(), st2)) + ["end"]
+        return self.memo[key]
+
+    PATH = r"((?:\* )?(?:\w+ \. )*(?:r\#)?\w+)"
+
+    def write_all(self, a, st):
+        P_ = self.PATH
+        m = re.fullmatch(r"& " + P_ + r" \. to_(le|be)_bytes \( \)", a)
+        if m:
+            p = m.group(1).split(" ")
+            t = self.strip_ty(self.path_type(p, st))
+            if t not in self.INTS:
+                raise Untranslated(f"to_{m.group(2)}_bytes on a value of type {t}: {a}")
+            return [("f", self.name_of(p), ["p"], ["int", str(self.INTS[t]), m.group(2)])]
+        m = re.fullmatch(r"& Self :: (\w+)_VALUE \. to_(le|be)_bytes \( \)", a)
+        if m:
+            mc = re.search(r"pub const " + m.group(1) + r"_VALUE: (\w+) = (0x[0-9a-fA-F_]+|\d+);", st["src"])
+            if not mc or mc.group(1) not in self.INTS:
+                raise Untranslated(f"constant {m.group(1)}_VALUE not found")
+            v = int(mc.group(2).replace("_", ""), 0)
+            return [("f", m.group(1).lower(), ["c", str(v)], ["int", str(self.INTS[mc.group(1)]), m.group(2)])]
+        m = re.fullmatch(r"& \( \( self \. size \( \) - (\d+) \) as (u\d+) \) \. to_(le|be)_bytes \( \)", a)
+        if m:
+            return [("f", None, ["s", m.group(1)], ["int", str(self.INTS[m.group(2)]), m.group(3)])]
+        m = re.fullmatch(r"& " + P_ + r" \. guid \( \) \. to_le_bytes \( \)", a)
+        if m:
+            p = m.group(1).split(" ")
+            t = self.strip_ty(self.path_type(p, st))
+            if t != "Guid":
+                raise Untranslated(f".guid() on {t}")
+            return [("f", self.name_of(p), ["p"], ["int", "8", "le"])]
+        if a == "& Self :: OPCODE . to_le_bytes ( )":
+            return []           # login writers start with the opcode byte; the framing (lib/semcorr.frame) accounts for it
+        m = re.fullmatch(r"& " + P_ + r" \. as_int \( \) \. to_le_bytes \( \)", a)
+        if m:
+            p = m.group(1).split(" ")
+            t = self.strip_ty(self.path_type(p, st))
+            if t == "Level":
+                return [("f", self.name_of(p), ["p"], ["int", "1", "le"])]
+            if t == "DateTime":
+                return [("f", self.name_of(p), ["p"], ["datetime"])]
+            if t in ("Gold", "Population"):
+                return [("f", self.name_of(p), ["p"], ["int", "4", "le"])]
+            raise Untranslated(f"x.as_int() on {t}")
+        m = re.fullmatch(r"& \( " + P_ + r" \. as_int \( \) \. to_(le|be)_bytes \( \) \)", a)
+        if m:
+            p = m.group(1).split(" ")
+            t = self.strip_ty(self.path_type(p, st))
+            w = self.as_int_width(t, st)
+            return [("f", self.name_of(p), ["p"], self.enum_or_flag(t, self.INTS[w], m.group(2), st))]
+        m = re.fullmatch(r"& (u\d+|i\d+) :: from \( " + P_ + r" \. as_int \( \) \) \. to_(le|be)_bytes \( \)", a)
+        if m:
+            p = m.group(2).split(" ")
+            t = self.strip_ty(self.path_type(p, st))
+            k = self.INTS[m.group(1)]
+            if t == "Level":
+                return [("f", self.name_of(p), ["p"], ["lvl", str(k)])]
+            return [("f", self.name_of(p), ["p"], self.enum_or_flag(t, k, m.group(3), st))]
+        m = re.fullmatch(r"(u\d+) :: from \( " + P_ + r" \) \. to_le_bytes \( \) \. as_slice \( \)", a)
+        if m:
+            p = m.group(2).split(" ")
+            t = self.strip_ty(self.path_type(p, st))
+            if t != "bool":
+                raise Untranslated(f"uN::from on {t}")
+            return [("f", self.name_of(p), ["p"], ["bool", str(self.INTS[m.group(1)])])]
+        m = re.fullmatch(r"\( " + P_ + r" \. as_int \( \) \) \. to_le_bytes \( \) \. as_slice \( \)", a)
+        if m:
+            p = m.group(1).split(" ")
+            t = self.strip_ty(self.path_type(p, st))
+            if t == "Gold":
+                return [("f", self.name_of(p), ["p"], ["int", "4", "le"])]
+            if t == "Level":
+                return [("f", self.name_of(p), ["p"], ["int", "1", "le"])]
+            raise Untranslated(f"(x.as_int()) on {t}")
+        m = re.fullmatch(r"\( " + P_ + r" \. as_(millis|secs) \( \) as u32 \) \. to_le_bytes \( \) \. as_slice \( \)", a)
+        if m:
+            p = m.group(1).split(" ")
+            t = self.strip_ty(self.path_type(p, st))
+            if t not in ("Duration", "core::time::Duration", "std::time::Duration"):
+                raise Untranslated(f"as_millis on {t}")
+            return [("f", self.name_of(p), ["p"], ["int", "4", "le"])]
+        m = re.fullmatch(r"& \( " + P_ + r" \. len \( \) as (u\d+) \) \. to_le_bytes \( \)", a)
+        if m:
+            return [("len", self.name_of(m.group(1).split(" ")), self.INTS[m.group(2)])]
+        m = re.fullmatch(r"& \( \( " + P_ + r" \. len \( \) \+ 1 \) as u32 \) \. to_le_bytes \( \)", a)
+        if m:
+            return [("lenp1", self.name_of(m.group(1).split(" ")))]
+        m = re.fullmatch(P_ + r" \. as_bytes \( \)", a)
+        if m:
+            p = m.group(1).split(" ")
+            t = self.strip_ty(self.path_type(p, st))
+            if t != "String":
+                raise Untranslated(f"as_bytes on {t}")
+            return [("bytes", self.name_of(p) or "_elem")]
+        if a == "& [ 0 ]":
+            return [("zero",)]
+        m = re.fullmatch(r"& \( " + P_ + r" \. as_int \( \) as u32 \) \. to_le_bytes \( \)", a)
+        if m:
+            return [("lo48", self.name_of(m.group(1).split(" ")))]
+        m = re.fullmatch(r"& \( \( " + P_ + r" \. as_int \( \) >> 32 \) as u16 \) \. to_le_bytes \( \)", a)
+        if m:
+            return [("hi48", self.name_of(m.group(1).split(" ")))]
+        m = re.fullmatch(r"& " + P_ + r" \. octets \( \)", a)
+        if m:
+            return [("f", self.name_of(m.group(1).split(" ")), ["p"], ["int", "4", "be"])]
+        raise Untranslated(f"unrecognised write_all argument: {a}")
+
+    def for_(self, s, st):
+        pat, it, body = " ".join(s[1]), " ".join(s[2]), s[3]
+        m = re.fullmatch(self.PATH + r" \. iter \( \)", it)
+        if not m or pat not in ("i", "v"):
+            raise Untranslated(f"for {pat} in {it}")
+        p = m.group(1).split(" ")
+        t = self.strip_ty(self.path_type(p, st))
+        name = self.name_of(p)
+        mv = re.fullmatch(r"Vec<(.*)>", t)
+        mf = re.fullmatch(r"\[(.*); (\d+)\]", t)
+        if not mv and not mf:
+            raise Untranslated(f"loop over a value of type {t}")
+        elem = (mv or mf).group(1)
+        st2 = dict(st, vars=dict(st["vars"], **{pat: elem}))
+        inner = self.block(body, st2)
+        if len(inner) != 1 or inner[0][0] != "f":
+            raise Untranslated(f"loop body is not a single element write: {[o[0] for o in inner]}")
+        et = inner[0][3]
+        if mf:
+            return [("f", name, ["p"], ["arrf", mf.group(2)] + et)]
+        return [("arr", name, et)]
+
+    def if_(self, e, st):
+        _, cond, then, els = e
+        ctext = " ".join(cond)
+        m = re.fullmatch(r"let Some \( (\w+) \) = & " + self.PATH, ctext)
+        if not m or els is not None:
+            raise Untranslated(f"unrecognised writer condition: {ctext}")
+        var, p = m.group(1), m.group(2).split(" ")
+        t = self.path_type(p, st)
+        mo = re.fullmatch(r"Option<(.*)>", t)
+        if not mo:
+            raise Untranslated(f"if let Some on {t}")
+        inner_t = self.strip_ty(mo.group(1))
+        st2 = dict(st, vars=dict(st["vars"], **{var: inner_t}))
+        body = self.block(then, st2)
+        owner_parts = [x for x in p if x != "."]
+        if len(owner_parts) >= 3 or (len(owner_parts) == 2 and owner_parts[0] != "self"):
+            # `self.flags.on_transport` / `v.flags.x`: a member of a synthesised flag struct
+            flag_field = owner_parts[-2]
+            opt = owner_parts[-1]
+            ft = self.strip_ty(self.path_type(p[:-2], st))
+            masks = self.flag_arm_masks(ft, opt, inner_t, st)
+            if masks is None:
+                raise Untranslated(f"cannot determine the flag mask of {ft}.{opt}")
+            if isinstance(masks, int):
+                return [("if", flag_field, [(["and", "1", str(masks)], body)], [])]
+            # else-if chain: `body` is a match over the synthesised enum, already translated into arms by match_()
+            if len(body) != 1 or body[0][0] != "ifenum":
+                raise Untranslated(f"else-if flag group {ft}.{opt} without a match")
+            arms = [(["and", "1", str(masks[vn])], b) for vn, b in body[0][1]]
+            return [("if", flag_field, arms, [])]
+        return [("opt", body)]
+
+    def flag_arm_masks(self, ft, opt, inner_t, st):
+        """mask of option member `opt` of synthesised flag struct `ft`: an int, or {variant: mask} for an else-if group"""
+        home = self.type_home(st["ctx"], ft, st["path"])
+        src = self.ix.src(home)
+        m = re.search(r"pub fn set_" + re.escape(opt) + r"\(mut self, \w+: [\w:]+\) -> Self \{\s*self\.inner \|= (\w+)::(\w+);", src)
+        if m:
+            _, consts = self.flag_consts_raw(st["ctx"], m.group(1), home)
+            return consts.get(m.group(2))
+        m = re.search(r"pub fn set_" + re.escape(opt) + r"\(mut self, \w+: ([\w:]+)\) -> Self \{\s*self\.inner \|= \w+\.as_int\(\);", src)
+        if m:
+            tab = as_int_table(src, inner_t)
+            if tab:
+                return dict(tab[1])
+        return None
+
+    def flag_consts_raw(self, ctx, name, here):
+        home = self.type_home(ctx, name, here)
+        s = self.ix.src(home)
+        m = re.search(r"pub struct " + name + r" \{\s*inner: (\w+),", s)
+        if not m:
+            raise Untranslated(f"{name}: not a flag type")
+        consts = {}
+        for mm in re.finditer(r"pub const (\w+): " + m.group(1) + r" = (0x[0-9a-fA-F_]+|\d+);", s):
+            consts[mm.group(1)] = int(mm.group(2).replace("_", ""), 0)
+        return m.group(1), consts
+
+    def match_(self, e, st):
+        _, scrut, arms = e
+        stext = " ".join(scrut)
+        m = re.fullmatch(r"&? ?" + self.PATH, stext)
+        if not m:
+            raise Untranslated(f"match on {stext}")
+        p = m.group(1).split(" ")
+        t = self.strip_ty(self.path_type(p, st))
+        home = self.type_home(st["ctx"], t, st["path"])
+        d = self.decls(home).get(t)
+        if not d or d[0] != "enum":
+            raise Untranslated(f"match on a value of type {t}")
+        variants = dict(d[1])
+        bodies = {}
+        for pat, body in arms:
+            ptxt = " ".join(pat)
+            if ptxt == "_":
+                if self.block(body, st):
+                    raise Untranslated("wildcard arm that writes")
+                continue
+            mp = re.fullmatch(r"(?:crate :: \w+ :: )?(\w+) :: (\w+)(?: \{ ?(.*) \})?", ptxt)
+            if not mp or mp.group(1) != t or mp.group(2) not in variants:
+                raise Untranslated(f"match arm pattern {ptxt}")
+            binds = {}
+            if mp.group(3):
+                for b in [x.strip() for x in mp.group(3).split(",") if x.strip()]:
+                    b = b.replace("r# ", "").replace("r#", "")
+                    if b == ". .":
+                        continue
+                    if b not in variants[mp.group(2)]:
+                        raise Untranslated(f"{t}::{mp.group(2)} has no field {b}")
+                    binds[b] = variants[mp.group(2)][b]
+            st2 = dict(st, vars=dict(st["vars"], **binds))
+            bodies[mp.group(2)] = self.block(body, st2)
+        if len([x for x in p if x != "."]) == 1 and p[0] == "if_statement":
+            return [("ifenum", [(vn, bodies.get(vn, [])) for vn, _ in d[1]])]
+        tab = as_int_table(self.ix.src(home), t)
+        if tab is None:
+            raise Untranslated(f"{t}: no as_int table")
+        arms_out = [(["eq", "1", str(v)], bodies.get(vn, [])) for vn, v in tab[1]]
+        if set(bodies) - {vn for vn, _ in tab[1]}:
+            raise Untranslated(f"arms for variants outside as_int of {t}")
+        return [("if", self.name_of(p), arms_out, [])]
+
+    # ---- tokens
+    def ops_to_tokens(self, ops):
+        # array kind: a Vec whose length was written before is counted by that field, otherwise it runs to the end of the message
+        out = []
+        lens = {o[1][4:] for o in ops if o[0] == "f" and o[1] and o[1].startswith("len:")}
+        return self._tok(ops, lens)
+
+    def _tok(self, ops, lens):
+        out = []
+        lens = set(lens) | {o[1][4:] for o in ops if o[0] == "f" and o[1] and o[1].startswith("len:")}
+        i = 0
+        ops = list(ops)
+        while i < len(ops):
+            o = ops[i]
+            if o[0] == "lo48" and i + 1 < len(ops) and ops[i + 1] == ("hi48", o[1]):
+                out += ["f", str(vid(o[1])), "p", "int", "6", "le"]
+                i += 2
+                continue
+            if o[0] == "f":
+                role = o[2] if o[2][0] != "s" else ["s"]
+                out += ["f", "?" if o[1] is None else str(vid(o[1]))] + role + o[3]
+            elif o[0] == "arr":
+                if o[1] in lens:
+                    out += ["f", str(vid(o[1])), "p", "arrv", str(vid("len:" + o[1]))] + o[2]
+                else:
+                    out += ["fe", str(vid(o[1]))] + o[2]
+            elif o[0] == "if":
+                out += ["if", "?" if o[1] is None else str(vid(o[1])), str(len(o[2]))]
+                for c, b in o[2]:
+                    out += c + self._tok(b, lens) + ["end"]
+                out += self._tok(o[3], lens) + ["end"]
+            elif o[0] == "opt":
+                out += ["opt"] + self._tok(o[1], lens) + ["end"]
+            else:
+                raise Untranslated(f"dangling piece {o[0]}")
+            i += 1
+        return out
+
+
+def translate_all_writers(reader=None):
+    tr = WriterTranslator(reader)
+    out = []
+    for ctx, path in message_files():
+        src = tr.ix.src(path)
+        name = re.search(r"(?m)^pub (?:struct|enum) (\w+)", src).group(1)
+        d = {"ctx": ctx, "rust_type": name, "file": os.path.relpath(path, REPO)}
+        try:
+            d["tokens"] = tr.ops_to_tokens(tr.container(ctx, path, name)) + ["end"]
+        except Untranslated as ex:
+            d["untranslated"] = str(ex)
+        out.append(d)
+    return out
